@@ -259,7 +259,7 @@ func H_C16_zeromux() {
 	vSummarise("encodeInteger")
 	req, rerr := newRequest(1, c, &packet{Packet: vWire(refEnvelope(1, refDeleteOp(), nil))})
 	vAssume(rerr == nil && req != nil)
-	w, werr := newResponseWriter(c.writer, &c.writerMu, c.logger, c.connID, 1)
+	w, werr := newResponseWriter(c.writer, &c.writerMu, c.logger, int(c.connID), 1)
 	vAssume(werr == nil)
 	m.serve(w, req)
 	vAssert(ran == 1, "the request is served by a registered route")
